@@ -5,12 +5,16 @@
   T10.2  `inv_mod` for `m = s·2^k` (CRT recombination), given the odd-modulus inverter spec   — full
          (+ proved negation for modulus 0: the fixed-width form panics — DESIGN §7 row 8)
   T10.3  `gcd = 2^k · gcd(f, g)` incl. zeros, given the odd-operand gcd spec                   — full
-  T10.4  safegcd: (b) `inv_mod2_62` — full; (c) `jump`: matrix identity, det, no wrap, termination in
+  T10.4  safegcd: (a) `UnsatInt` 62-bit <-> 64-bit limb conversions value preserving, mutually inverse — full;
+         (b) `inv_mod2_62` — full; (c) `jump`: matrix identity, det, no wrap, termination in
          fuel, gcd preservation for the full-width operands — full
+         (d) `fg` / `de` exact on unsaturated limbs (incl. the `(-2M, M)` range of `d`, `e`) — full
   (further sections are appended below as they are proved)
 -/
 import CB.Lemmas.C10Gcd
 import CB.Lemmas.C10Jump
+import CB.Lemmas.C10De
+import CB.Lemmas.C10Conv
 namespace CB.P10
 open CB.InvMod2k CB.Gcd CB.SafeGcd
 
@@ -178,5 +182,86 @@ theorem jump_preserves_gcd (f g : List Nat) (delta : Int) (hfl : f.headD 0 < 2 ^
 /-- non-vacuity: the matrix of one batch for f = 7, g = 12, δ = 1 -/
 example : (jump [7] [12] 1).2.t00 * 7 + (jump [7] [12] 1).2.t01 * 12 = 2 ^ 62 * 1 ∧
     (jump [7] [12] 1).2.t10 * 7 + (jump [7] [12] 1).2.t11 * 12 = 0 := by decide +kernel
+
+
+/-- (d) `fg`: for well-formed `n ≥ 2`-limb operands, a matrix whose rows have absolute sum `≤ 2^62`
+    (what `jump_matrix` guarantees) and `T·(F, G)` within the signed range of the limbs, the outputs
+    are well formed and are exactly `⌊(t00·F + t01·G)/2^62⌋`, `⌊(t10·F + t11·G)/2^62⌋`
+    (`uval` = two's-complement value; `Q = 2^62`). -/
+theorem fg_exact (f g : List Nat) (t : Mat) (hf : WF62 f) (hg : WF62 g) (hl : f.length = g.length)
+    (hlen : 2 ≤ f.length)
+    (hb0 : |t.t00| + |t.t01| ≤ 2 ^ 62) (hb1 : |t.t10| + |t.t11| ≤ 2 ^ 62)
+    (hr0a : -((Q ^ f.length : Nat) : Int) ≤ 2 * (t.t00 * uval f + t.t01 * uval g))
+    (hr0b : 2 * (t.t00 * uval f + t.t01 * uval g) < ((Q ^ f.length : Nat) : Int))
+    (hr1a : -((Q ^ f.length : Nat) : Int) ≤ 2 * (t.t10 * uval f + t.t11 * uval g))
+    (hr1b : 2 * (t.t10 * uval f + t.t11 * uval g) < ((Q ^ f.length : Nat) : Int)) :
+    (fg f g t).1.length = f.length ∧ WF62 (fg f g t).1 ∧
+    uval (fg f g t).1 = (t.t00 * uval f + t.t01 * uval g) / (Q : Int) ∧
+    (fg f g t).2.length = f.length ∧ WF62 (fg f g t).2 ∧
+    uval (fg f g t).2 = (t.t10 * uval f + t.t11 * uval g) / (Q : Int) :=
+  fg_spec f g t hf hg hl hlen hb0 hb1 hr0a hr0b hr1a hr1b
+
+/-- (d) `de`: with `d, e ∈ (-2M, M)`, `inverse·M ≡ 1 (mod 2^62)` (from `inv_mod2_62_correct`) and
+    `2^64·M ≤ 2^(62n)` (the limb geometry `bits + 64 ≤ 62n`), there are integers `md`, `me` with
+    `2^62·d' = t00·d + t01·e + md·M` and `2^62·e' = t10·d + t11·e + me·M` EXACTLY, and
+    `d', e' ∈ (-2M, M)` again. -/
+theorem de_exact (modulus d e : List Nat) (inverse : Int) (t : Mat)
+    (hd : WF62 d) (he : WF62 e) (hm : WF62 modulus)
+    (hl : d.length = e.length) (hl2 : d.length = modulus.length) (hlen : 2 ≤ d.length)
+    (hb0 : |t.t00| + |t.t01| ≤ 2 ^ 62) (hb1 : |t.t10| + |t.t11| ≤ 2 ^ 62)
+    (hM : 0 < uval modulus) (hD1 : -(2 * uval modulus) < uval d) (hD2 : uval d < uval modulus)
+    (hE1 : -(2 * uval modulus) < uval e) (hE2 : uval e < uval modulus)
+    (hcap : 2 ^ 64 * uval modulus ≤ ((Q ^ d.length : Nat) : Int))
+    (hinv : inverse * uval modulus ≡ 1 [ZMOD 2 ^ 62]) :
+    ∃ md me : Int,
+      (de modulus inverse t d e).1.length = d.length ∧ WF62 (de modulus inverse t d e).1 ∧
+      (de modulus inverse t d e).2.length = d.length ∧ WF62 (de modulus inverse t d e).2 ∧
+      2 ^ 62 * uval (de modulus inverse t d e).1 = t.t00 * uval d + t.t01 * uval e + md * uval modulus ∧
+      2 ^ 62 * uval (de modulus inverse t d e).2 = t.t10 * uval d + t.t11 * uval e + me * uval modulus ∧
+      -(2 * uval modulus) < uval (de modulus inverse t d e).1 ∧ uval (de modulus inverse t d e).1 < uval modulus ∧
+      -(2 * uval modulus) < uval (de modulus inverse t d e).2 ∧ uval (de modulus inverse t d e).2 < uval modulus :=
+  de_spec modulus d e inverse t hd he hm hl hl2 hlen hb0 hb1 hM hD1 hD2 hE1 hE2 hcap hinv
+
+/-- the `UnsatInt` primitives behind (d): wrapping add / mul-by-`i64` / neg modulo `2^(62n)` and the
+    exact 62-bit arithmetic shift -/
+theorem unsat_arith (a b : List Nat) (t : Int) (ha : WF62 a) (hl : a.length = b.length)
+    (ht1 : -(2 ^ 63) ≤ t) (ht2 : t ≤ 2 ^ 63) :
+    uvalN (uadd a b) = (uvalN a + uvalN b) % Q ^ a.length ∧
+    ((uvalN (umul a t) : Nat) : Int) ≡ (uvalN a : Nat) * t [ZMOD ((Q ^ a.length : Nat) : Int)] ∧
+    uvalN (uneg a) = (Q ^ a.length - uvalN a) % Q ^ a.length ∧
+    (2 ≤ a.length → uval (ushr a) = uval a / (Q : Int)) :=
+  ⟨(uadd_spec a b hl).2.2, (umul_spec a t ha ht1 ht2).2.2, (uneg_spec a ha).2.2,
+   fun h => (ushr_spec a ha h).2.2⟩
+
+/-- non-vacuity of (d): one `fg` step on 3-limb operands f = 7, g = 12 with the matrix of the batch -/
+example : uval (fg [7, 0, 0] [12, 0, 0] (jump [7] [12] 1).2).1 = 1 ∧
+    uval (fg [7, 0, 0] [12, 0, 0] (jump [7] [12] 1).2).2 = 0 := by decide +kernel
+
+
+/-- (a) `from_uint` (the `impl_limb_convert!` bit loop as written): `n` well-formed 62-bit limbs with
+    the same value, whenever they can hold the input (`64·LIMBS ≤ 62·n`). -/
+theorem from_uint_value (x : List Nat) (n : Nat) (hx : CB.WF x) (hfit : 64 * x.length ≤ 62 * n) :
+    (fromUint x n).length = n ∧ WF62 (fromUint x n) ∧ uvalN (fromUint x n) = CB.val x :=
+  fromUint_spec x n hx hfit
+
+/-- (a) `to_uint`: `sat` well-formed 64-bit words holding the low `64·sat` bits of the limb value. -/
+theorem to_uint_value (u : List Nat) (sat : Nat) (hu : WF62 u) (hfit : 64 * sat ≤ 62 * u.length) :
+    (toUint u sat).length = sat ∧ CB.WF (toUint u sat) ∧
+    CB.val (toUint u sat) = uvalN u % 2 ^ (64 * sat) :=
+  toUint_spec u sat hu hfit
+
+/-- (a) the conversions are inverse bijections between `Uint<LIMBS>` values and the non-negative
+    unsaturated integers below `2^(64·LIMBS)`; the crate's limb count `safegcd_nlimbs!` satisfies the
+    side condition with 64 bits to spare. -/
+theorem unsat_conversions_inverse (x u : List Nat) (n sat : Nat) (hx : CB.WF x) (hu : WF62 u)
+    (hfx : 64 * x.length ≤ 62 * n) (hfu : 64 * sat ≤ 62 * u.length) (hval : uvalN u < 2 ^ (64 * sat)) :
+    toUint (fromUint x n) x.length = x ∧ fromUint (toUint u sat) u.length = u ∧
+    (∀ bits, bits + 64 ≤ 62 * nlimbsFor bits) :=
+  ⟨toUint_fromUint x n hx hfx, fromUint_toUint u sat hu hfu hval, nlimbs_geometry⟩
+
+/-- non-vacuity of (a): a 2-word value through 4 unsaturated limbs and back -/
+example : uvalN (fromUint [0xfedcba9876543210, 0x0123456789abcdef] 4) = 0x0123456789abcdeffedcba9876543210 ∧
+    toUint (fromUint [0xfedcba9876543210, 0x0123456789abcdef] 4) 2 =
+      [0xfedcba9876543210, 0x0123456789abcdef] := by decide +kernel
 
 end CB.P10
